@@ -22,6 +22,7 @@ type State struct {
 	A     string             // allocation counter
 	regs  map[ssa.Value]Val
 	hist  *big.Int // block visits on some path to this state
+	outer []map[ssa.Value]Val // registers of the functions this (inlined) frame was called from
 	lane  string   // states of different lanes (exits of unrolled loops at different iterations) are not merged
 }
 
@@ -30,7 +31,7 @@ var heapKinds = []string{"u8", "i8", "u16", "i16", "u32", "i32", "int", "u64", "
 const maxLen = "281474976710656" // 2^48
 
 func (s *State) clone() *State {
-	n := &State{pc: s.pc, A: s.A, hist: s.hist, lane: s.lane, vars: make(map[*ssa.Alloc]Val, len(s.vars)), heaps: make(map[string]string, len(s.heaps)), regs: make(map[ssa.Value]Val, len(s.regs))}
+	n := &State{pc: s.pc, A: s.A, hist: s.hist, lane: s.lane, outer: s.outer, vars: make(map[*ssa.Alloc]Val, len(s.vars)), heaps: make(map[string]string, len(s.heaps)), regs: make(map[ssa.Value]Val, len(s.regs))}
 	for k, v := range s.regs {
 		n.regs[k] = v
 	}
@@ -103,6 +104,7 @@ type Exec struct {
 	boundedBy []string
 	nlanes   int
 	pruneDir string
+	rootScoped bool // inlined closure / helper with a Root>callee contract: spec names and old() are the root's
 	lastNarrow *narrowInfo
 	instDone map[string]bool
 	prunePos string
@@ -142,7 +144,7 @@ func (e *Exec) merge(es []edge) *State {
 		s.pc = c.and(s.pc, es[0].cond)
 		return s
 	}
-	out := &State{vars: map[*ssa.Alloc]Val{}, heaps: map[string]string{}, regs: map[ssa.Value]Val{}, hist: new(big.Int), lane: es[0].st.lane}
+	out := &State{vars: map[*ssa.Alloc]Val{}, heaps: map[string]string{}, regs: map[ssa.Value]Val{}, hist: new(big.Int), lane: es[0].st.lane, outer: es[0].st.outer}
 	for _, ed := range es {
 		if ed.st.hist != nil {
 			out.hist = new(big.Int).Or(out.hist, ed.st.hist)
